@@ -11,6 +11,7 @@ one() {
   for c in $checks; do
     if echo "$out" | grep -q "VIOLATION property=$c"; then
       if echo "$out" | grep "VIOLATION property=$c" | grep -q "no-failing-input-found"; then echo "$id $c CAUGHT (no-failing-input-found)"; else echo "$id $c CAUGHT"; fi
+    elif python3 -c "import json,sys; sys.exit(0 if json.load(open('$d/meta.json')).get('not_caught') else 1)"; then echo "$id $c NOT-CAUGHT (documented in meta.json)"
     else echo "$id $c MISSED"; fi
   done
 }
